@@ -285,3 +285,23 @@ def _secure_random_target_from(tree, repo):
 
 custom("secure_random_target_from", "src/core_codemods/secure_random.py", ["C18"], "secure_random_target_from", "args_from", "FromUpdated",
        _secure_random_target_from, doc="SecureRandomTransformer.on_result_found: which node update_call_target rebuilds the call from")
+
+
+def _codeql_start_column(tree, repo):
+    d = find_def(tree, "CodeQLLocation.from_sarif")
+    if d is None:
+        raise Unrecognised("CodeQLLocation.from_sarif not found")
+    gets = [n for n in ast.walk(d) if isinstance(n, ast.Call) and isinstance(n.func, ast.Attribute) and n.func.attr == "get"
+            and n.args and isinstance(n.args[0], ast.Constant) and n.args[0].value == "startColumn"]
+    if len(gets) != 1 or ast.unparse(gets[0].func.value) != "region":
+        raise Unrecognised("CodeQLLocation.from_sarif does not read region.get('startColumn'...) exactly once")
+    g = gets[0]
+    if len(g.args) == 1 and not g.keywords:
+        return "ScNone"
+    if len(g.args) == 2 and isinstance(g.args[1], ast.Constant) and g.args[1].value == 1 and not g.keywords:
+        return "ScOne"
+    raise Unrecognised(f"startColumn default is `{ast.unparse(g)}`")
+
+
+custom("codeql_start_column", "src/codemodder/codeql.py", ["C06"], "codeql_start_column", "sc_default", "ScOne",
+       _codeql_start_column, doc="CodeQLLocation.from_sarif: the start column of a region without startColumn")
